@@ -21,10 +21,36 @@ from pyvc.models import RecordModel
 from pyvc import contract as _C
 from contracts.parsing import accepts_t, converted_t
 
+import os as _os
+
 BP = "utype/parser/base.py"
-KEYS = ["a", "x", "b", "zz"]
-FIELDS = {"f1": ("a", ("a", "x")), "f2": ("b", ("b",))}
-ALIAS_TO_FIELD = {"a": "f1", "x": "f1", "b": "f2"}
+
+
+class Shape:
+    def __init__(self, tag, keys, fields, ci_names=()):
+        self.tag, self.keys, self.fields, self.ci_names = tag, keys, fields, tuple(ci_names)
+        self.alias_to_field = {}
+        for fk, (_, aliases) in fields.items():
+            for a in aliases:
+                self.alias_to_field[a] = fk
+        self.known_keys = set(self.alias_to_field) | {a.upper() for a in self.alias_to_field if a in self.ci_names}
+
+    def field_of_key(self, key):
+        if key in self.alias_to_field:
+            return self.alias_to_field[key]
+        if key.lower() in self.ci_names and key.lower() in self.alias_to_field:
+            return self.alias_to_field[key.lower()]
+        return None
+
+
+if _os.environ.get("VERIF_TIER") == "thorough":
+    # thorough: the first field has THREE input names (conflicts under a third name, alias scan order)
+    MAIN = Shape("", ["a", "x", "y", "b", "zz"], {"f1": ("a", ("a", "x", "y")), "f2": ("b", ("b",))})
+else:
+    MAIN = Shape("", ["a", "x", "b", "zz"], {"f1": ("a", ("a", "x")), "f2": ("b", ("b",))})
+# second shape: f2 is case-insensitive (given as 'B'), f1 has a case-SENSITIVE second name 'X'
+CI = Shape("ci", ["a", "X", "B", "ZZ"], {"f1": ("a", ("a", "X")), "f2": ("b", ("b",))}, ci_names=("b",))
+SHAPES = {"": MAIN, "ci": CI}
 
 
 class LoopParserModel(RecordModel):
@@ -35,40 +61,58 @@ class LoopParserModel(RecordModel):
                 if key is None:
                     raise Unsupported("get_field with a symbolic key (bounded shape: keys are concrete)")
                 ex_.world.ext.use(ex_, "BOUNDED: get_field resolves a concrete key through the concrete alias table of the shape")
-                f = ALIAS_TO_FIELD.get(key)
+                f = SHAPES[rec.shape_tag].field_of_key(key)
                 return rec.fields["fields"].items[f][1] if f else VNone()
             return VFunc("get_field", get_field)
         return RecordModel.getattr(self, ex, rec, name, node)
 
 
-def _mk_fields(ex):
-    d = VDict()
-    for fkey, (name, aliases) in FIELDS.items():
-        rec = ex.world.models["ParserField"].fresh(
-            ex, "loop_" + fkey, **{"name": Str(name), "attname": Str(name), "on_error": Str("throw"), "type": Cls(name="ftype_" + fkey),
-                                   "required": BOOL, "no_input": BOOL, "mode": NONE, "final": BOOL, "default": OBJ, "default_factory": NONE,
-                                   "discriminator_map": NONE, "dependencies": NONE})
-        rec.fields["all_aliases"] = VTup([VStr(a) for a in aliases])
-        ex.assume(sym.truthy_f(rec.fields["type"].t))
-        ex.assume(rec.fields["default"].t != ex.world.opaque_const("unprovided"))
-        d.items[fkey] = (z3.BoolVal(True), rec)
-    return d
+def _mk_fields(shape):
+    def mk(ex):
+        d = VDict()
+        for fkey, (name, aliases) in shape.fields.items():
+            rec = ex.world.models["ParserField"].fresh(
+                ex, "loop_" + fkey, **{"name": Str(name), "attname": Str(name), "on_error": Str("throw"), "type": Cls(name="ftype_" + fkey),
+                                       "required": BOOL, "no_input": BOOL, "mode": NONE, "final": BOOL, "default": OBJ, "default_factory": NONE,
+                                       "discriminator_map": NONE, "dependencies": NONE})
+            rec.fields["all_aliases"] = VTup([VStr(a) for a in aliases])
+            ex.assume(sym.truthy_f(rec.fields["type"].t))
+            ex.assume(rec.fields["default"].t != ex.world.opaque_const("unprovided"))
+            d.items[fkey] = (z3.BoolVal(True), rec)
+        return d
+    return mk
+
+
+class _LoopParserDesc(Desc):
+    def __init__(self, shape):
+        self.shape = shape
+        self.name = "LoopParser[%s]" % (shape.tag or "main")
+
+    def fresh(self, ex, pname):
+        rec = ex.world.models["LoopParser"].fresh(
+            ex, pname, fields=Const(_mk_fields(self.shape)),
+            case_insensitive_names=Const(lambda ex_: VTup([VStr(n) for n in self.shape.ci_names], "set")))
+        rec.shape_tag = self.shape.tag
+        return rec
+
+    def accepts(self, v):
+        return isinstance(v, VRec)
 
 
 def _install(world):
     world.models["LoopParser"] = LoopParserModel(
         world, BP, "BaseParser",
-        dict(fields=Const(_mk_fields, name="2 fields"), case_insensitive_names=Const(lambda ex: VTup([]), name="()"),
+        dict(fields=NONE, case_insensitive_names=Const(lambda ex: VTup([]), name="()"),
              exclude_vars=Const(lambda ex: VTup([], "set"), name="set()"), addition_type=NONE, options=Rec("Options")))
 
 
 _C.INSTALLERS.append(_install)
 
 
-def _data_desc(present):
+def _data_desc(shape, present):
     def mk(ex):
         d = VDict()
-        for k in KEYS:
+        for k in shape.keys:
             if k in present:
                 d.items[k] = (z3.BoolVal(True), VObj(z3.Const("data_%s" % k, V)))
         d.origin = "param:data"
@@ -76,16 +120,17 @@ def _data_desc(present):
     return Const(mk, name="data{%s}" % ",".join(present))
 
 
-def _cases():
+def _cases(shape):
     out = {}
-    for mask in range(16):
-        present = [k for i, k in enumerate(KEYS) if mask >> i & 1]
+    unknown = shape.keys[-1]
+    for mask in range(2 ** len(shape.keys)):
+        present = [k for i, k in enumerate(shape.keys) if mask >> i & 1]
         for an, ad in (("addition-none", NONE), ("addition-false", FALSE), ("addition-true", TRUE)):
-            if "zz" not in present and an != "addition-none":
+            if unknown not in present and an != "addition-none":
                 continue            # the addition policy only matters when an unknown key is given
             for mn, md in (("fail-fast", FALSE), ("collect", TRUE)):
                 out["%s|%s|%s" % ("+".join(present) or "empty", an, mn)] = dict(
-                    self=Rec("LoopParser"), data=_data_desc(present),
+                    self=_LoopParserDesc(shape), data=_data_desc(shape, present),
                     context=Rec("RuntimeContext", options=Rec(
                         "Options", invalid_values=STR, collect_errors=md, max_errors=NONE, mode=NONE, ignore_required=BOOL,
                         force_default=UNPROVIDED, no_default=BOOL, defer_default=BOOL, addition=ad, ignore_alias_conflicts=FALSE)))
@@ -105,7 +150,7 @@ def _setup(ex, frame):
             ex.assume(sym.py_eq(vals[i], vals[j]) == sym.py_eq(vals[j], vals[i]))
     for k, (_, v) in d.items.items():
         ex.assume(v.t != u)                      # callers pass real values, never the sentinel
-        f = ALIAS_TO_FIELD.get(k)
+        f = SHAPES[frame.env["self"].shape_tag].field_of_key(k)
         if f:
             t = fs.items[f][1].fields["type"].t
             ex.assume(converted_t(t, v.t, nec, ndl) != u)      # no converter returns the sentinel
@@ -117,11 +162,12 @@ def _F(fkey):
     return "self.fields['%s']" % fkey
 
 
-def _field_terms(fkey, present):
+def _field_terms(shape, fkey, present):
     """(error condition, output clause on `result`) of one declared field, as clause texts"""
-    name, aliases = FIELDS[fkey]
+    name, aliases = shape.fields[fkey]
     f = _F(fkey)
-    given = [a for a in aliases if a in present]
+    # the input names under which this field is given, in alias order (a case-insensitive name also in upper case)
+    given = [k for a in aliases for k in ([a] + ([a.upper()] if a in shape.ci_names else [])) if k in present]
     o = "context.options"
     ani = "((%s.final and not %s.no_default) or (%s.no_input is True))" % (f, f, f)
     required_now = "((not %s.ignore_required) and (%s.required is True) and not %s)" % (o, f, ani)
@@ -137,26 +183,36 @@ def _field_terms(fkey, present):
     errs = ["(not %s and not %s)" % (ani, acc)]
     out = "(%s) if %s else (implies(%s, rd_is(result, '%s', %s)))" % (default_out, ani, acc, name, cv)
     if len(given) > 1:
-        # two input names of one field carry values: a conflict unless they are equal
-        conflict = "(not %s and (data['%s'] != data['%s']))" % (ani, given[1], given[0])
+        # several input names of one field carry values: a conflict unless they all equal the first one
+        differs = " or ".join("(data['%s'] != data['%s'])" % (g, given[0]) for g in given[1:])
+        conflict = "(not %s and (%s))" % (ani, differs)
         errs.append(conflict)
+        # one conflict is one failing item; a strategy may name each conflicting input name separately
+        for g in given[2:]:
+            _EXTRA.append("(not %s and (data['%s'] != data['%s']) and (%s))" % (
+                ani, g, given[0], " or ".join("(data['%s'] != data['%s'])" % (h, given[0]) for h in given[1:given.index(g)])))
         out = "implies(not %s, %s)" % (conflict, out)
     return errs, out
 
 
-def _spec(case):
+_EXTRA = []
+
+
+def _spec(shape, case):
+    del _EXTRA[:]
     pres, an, mode = case.split("|")
     present = [] if pres == "empty" else pres.split("+")
+    unknown = shape.keys[-1]
     errs, outs = [], {}
-    for fkey in FIELDS:
-        e, o = _field_terms(fkey, present)
+    for fkey in shape.fields:
+        e, o = _field_terms(shape, fkey, present)
         errs += e
         outs["%s_as_documented" % fkey] = o
-    if "zz" in present:
+    if unknown in present:
         if an == "addition-true":
-            outs["unknown_key_kept"] = "rd_is(result, 'zz', data['zz'])"
+            outs["unknown_key_kept_as_given"] = "rd_is(result, '%s', data['%s'])" % (unknown, unknown)
         else:
-            outs["unknown_key_dropped"] = "not rd_has(result, 'zz')"
+            outs["unknown_key_dropped"] = "not rd_has(result, '%s')" % unknown
         if an == "addition-false":
             errs.append("True")
     nerr = " + ".join("(1 if %s else 0)" % e for e in errs) if errs else "0"
@@ -168,9 +224,14 @@ def _spec(case):
         returns["no_error_recorded"] = "len(context.errors) == old(len(context.errors))"
         raises = {"ParseError": {"rejected_only_for_a_failing_item": anyerr}}
     else:
-        returns["one_error_per_failing_item"] = "len(context.errors) == old(len(context.errors)) + %s" % nerr
+        if _EXTRA:
+            extra = " + ".join("(1 if %s else 0)" % e for e in _EXTRA)
+            returns["one_error_per_failing_item"] = ("len(context.errors) >= old(len(context.errors)) + %s and "
+                                                     "len(context.errors) <= old(len(context.errors)) + %s + %s" % (nerr, nerr, extra))
+        else:
+            returns["one_error_per_failing_item"] = "len(context.errors) == old(len(context.errors)) + %s" % nerr
         returns.update({k: "implies(not (%s), %s)" % (anyerr, v) for k, v in outs.items()})
-    returns["only_declared_or_given_names"] = "rd_only(result, 'a', 'b', 'zz')"
+    returns["only_declared_or_given_names"] = "rd_only(result, 'a', 'b', '%s')" % unknown
     return returns, raises
 
 
@@ -203,25 +264,33 @@ def _rd_only(ex, fr, r, *keys):
     return VBool(z3.And(*[z3.Not(p) for kk, (p, _) in r.items.items() if kk not in allowed]) if r.items else True)
 
 
-def _loop_contract(fname):
+def _loop_contract(fname, shape):
     @contract(BP, "BaseParser." + fname, props=["C05", "C06", "C10"])
     class _:
-        __doc__ = ("BOUNDED (2 fields, 4 candidate keys, see the module docstring): %s implements the documented field "
+        __doc__ = ("BOUNDED (2 fields, see the module docstring; shape %r): %s implements the documented field "
                    "contract: each given input name feeds its field and is stored under the output name; a missing required "
                    "field is an error, an optional one takes a copy of its default (or stays absent); no_input fields ignore "
-                   "input; unknown keys follow the addition policy; collecting reports exactly one error per failing item." % fname)
-        cases = _cases()
+                   "input; unknown keys follow the addition policy; collecting reports exactly one error per failing item."
+                   % (shape.tag or "main", fname))
+        cases = _cases(shape)
+        case_props = {cn: (["C05", "C06", "C10"] if cn.endswith("collect") else ["C05", "C06"]) for cn in _cases(shape)}
         setup = staticmethod(_setup)
         concrete_dicts = True
-        returns_by_case = {cn: _spec(cn)[0] for cn in _cases()}
-        raises_by_case = {cn: _spec(cn)[1] for cn in _cases()}
+        returns_by_case = {cn: _spec(shape, cn)[0] for cn in _cases(shape)}
+        raises_by_case = {cn: _spec(shape, cn)[1] for cn in _cases(shape)}
         only_raises = ["ParseError"]
         frame = ["data"]
         modifies = ["context.errors"]
-        assumes = ["BOUNDED shape: two declared fields (one with a second input name), input keys a, x, b, zz in that order, "
-                   "no dependencies / case-insensitive names / excluded keys, on_error = throw, ignore_alias_conflicts off"]
+        assumes = ["BOUNDED shape %r: two declared fields with input names %s%s, input keys %s in that order, "
+                   "no dependencies / excluded keys, on_error = throw, ignore_alias_conflicts off"
+                   % (shape.tag or "main", {k: v[1] for k, v in shape.fields.items()},
+                      (", case-insensitive names %s" % (shape.ci_names,)) if shape.ci_names else "", shape.keys)]
+    if shape.tag:
+        _.key = (BP, "BaseParser.%s#%s" % (fname, shape.tag))
     return _
 
 
-FIELD_FIRST = _loop_contract("field_first_parse")
-DATA_FIRST = _loop_contract("data_first_parse")
+FIELD_FIRST = _loop_contract("field_first_parse", MAIN)
+DATA_FIRST = _loop_contract("data_first_parse", MAIN)
+FIELD_FIRST_CI = _loop_contract("field_first_parse", CI)
+DATA_FIRST_CI = _loop_contract("data_first_parse", CI)
